@@ -159,4 +159,13 @@ WITNESSES += [
     dict(id="c08-index-alias-ctor", prop="C08", file=E, expect="R08b",
          old="            if spin:\n                new_idx = get_symbols(new_idx, spin * len(idx_list))\n            else:\n                new_idx = get_symbols(new_idx)",
          new="            if spin:\n                new_idx = get_symbols(new_idx, spin * len(idx_list))\n            else:\n                from .indices import Index as Idx\n                new_idx = [Idx(n) for n in new_idx]"),
+    dict(id="c08-compatible-terms-raw", prop="C08", file=S, expect="R08a",
+         old="                    compatible_terms[term_i][other_term_i] = sub", new="                    compatible_terms[term_i][other_term_i] = dict(sub)"),
+    dict(id="c08-diag-fock-raw", prop="C08", file=E, expect="R08a",
+         old="                return diag.subs(order_substitutions(sub))", new="                return diag.subs(sub)"),
+    dict(id="c08-length-guard", prop="C08", file=I, expect="R08d", old="        if len(indices) != len(spins):", new="        if len(indices) < len(spins):"),
+    dict(id="c08-pairing-reversed", prop="C08", file=E, expect="R08e",
+         old="            sub.update({o: n for o, n in zip(idx_list, new_idx)})", new="            sub.update({o: n for o, n in zip(idx_list, reversed(new_idx))})"),
+    dict(id="c08-generic-spin-lost", prop="C08", file=E, expect="R08e",
+         old="        kwargs = {f\"{space}_{spin}\" if spin else space: len(indices)", new="        kwargs = {space: len(indices)"),
 ]
